@@ -38,7 +38,7 @@ func (ks keySchema) getKeyValue(attrs map[string]string, item map[string]*types.
 		return hashKeyStr, nil
 	}
 
-	key = append(key, hashKeyStr)
+	key = append(key, escapeKeySeparator(hashKeyStr))
 
 	val, err = getItemValue(item, ks.RangeKey, attrs[ks.RangeKey])
 	if err != nil {
@@ -48,6 +48,28 @@ func (ks keySchema) getKeyValue(attrs map[string]string, item map[string]*types.
 	key = append(key, fmt.Sprintf("%v", val))
 
 	return strings.Join(key, "."), nil
+}
+
+// escapeKeySeparator escapes the separator (and the escape character) inside the
+// hash part of a composite key, so two different (hash, range) pairs never render
+// to the same key string. The range part is last and needs no escaping, which also
+// keeps the items of one partition ordered by their range value.
+func escapeKeySeparator(s string) string {
+	if !strings.ContainsAny(s, ".\\") {
+		return s
+	}
+
+	escaped := make([]byte, 0, len(s)+1)
+
+	for i := 0; i < len(s); i++ {
+		if s[i] == '.' || s[i] == '\\' {
+			escaped = append(escaped, '\\')
+		}
+
+		escaped = append(escaped, s[i])
+	}
+
+	return string(escaped)
 }
 
 func (ks *keySchema) describe() []types.KeySchemaElement {
